@@ -56,6 +56,8 @@ def _seq_range(ctx, path, seq):
         base, off, ln = seq.children()
         b2, lo2, hi2 = _seq_range(ctx, path, base)
         n = z3.Length(base)
+        if seq.get_id() in ctx.safe_extracts:
+            return b2, simp(lo2 + off), simp(lo2 + off + ln)
         # Extract clamps: valid when 0 <= off and off+ln <= len(base) on this path; otherwise keep opaque
         s = z3.Solver()
         s.set("timeout", 1000)
@@ -233,7 +235,9 @@ def assigned_names(stmts):
     out = set()
 
     def root_name(n):
-        while isinstance(n, (ast.Attribute, ast.Subscript)):
+        # obj.field[...] mutations go through the heap (the object is not rebound); only chains of subscripts
+        # rooted at a local name rebind that name under value semantics
+        while isinstance(n, ast.Subscript):
             n = n.value
         return n.id if isinstance(n, ast.Name) else None
 
@@ -268,6 +272,68 @@ def assigned_names(stmts):
                     out.add(r)
             elif isinstance(n, ast.comprehension):
                 pass
+    return out
+
+
+def live_in_names(stmts):
+    """Names that may be read in the block before the block assigns them on that path (flow-sensitive over
+    if/else; other compound statements are treated conservatively)."""
+    live = set()
+
+    def loads(node, defined):
+        for n in ast.walk(node):
+            if isinstance(n, ast.Name) and isinstance(n.ctx, ast.Load) and n.id not in defined:
+                live.add(n.id)
+
+    def targets(t, defined):
+        if isinstance(t, ast.Name):
+            defined.add(t.id)
+        elif isinstance(t, (ast.Tuple, ast.List)):
+            for e in t.elts:
+                targets(e, defined)
+        else:
+            loads(t, defined)
+
+    def block(sts, defined):
+        for st in sts:
+            if isinstance(st, ast.Assign):
+                loads(st.value, defined)
+                for t in st.targets:
+                    targets(t, defined)
+            elif isinstance(st, ast.AnnAssign):
+                if st.value is not None:
+                    loads(st.value, defined)
+                    targets(st.target, defined)
+            elif isinstance(st, ast.AugAssign):
+                loads(st.value, defined)
+                if isinstance(st.target, ast.Name):
+                    if st.target.id not in defined:
+                        live.add(st.target.id)
+                else:
+                    loads(st.target, defined)
+            elif isinstance(st, ast.If):
+                loads(st.test, defined)
+                d1 = set(defined)
+                block(st.body, d1)
+                d2 = set(defined)
+                block(st.orelse, d2)
+                defined |= (d1 & d2)
+            elif isinstance(st, (ast.For, ast.While, ast.Try, ast.With, ast.Match)):
+                loads(st, defined)       # conservative: nothing inside counts as defined afterwards
+            else:
+                loads(st, defined)
+        return defined
+    block(stmts, set())
+    return live
+
+
+def loaded_after(func_node, lineno_end):
+    out = set()
+    if func_node is None:
+        return None
+    for n in ast.walk(func_node):
+        if isinstance(n, ast.Name) and isinstance(n.ctx, ast.Load) and getattr(n, "lineno", 0) > lineno_end:
+            out.add(n.id)
     return out
 
 
@@ -491,7 +557,7 @@ def _summarise_nonempty(ctx, fr, path, src, body, lo, hi, peel):
                     if not any(f == field and z3.eq(o2, oid) for f, o2 in heap_locs + new_locs):
                         all_g = [g.inner for g in gens.values()] + [K]
                         if mentions(oid, all_g):
-                            raise Unsupported(f"loop at {where}: heap write to a location that depends on the iteration")
+                            raise Unsupported(f"loop at {where}: heap write to a location that depends on the iteration: {field} @ {str(oid)[:200]}")
                         new_locs.append((field, oid))
             for gname, gv in p.ghost.items():
                 if gname not in entry_ghost or not z3.eq(simp(gv.t), simp(entry_ghost[gname].t)):
@@ -682,15 +748,36 @@ def _summarise_nonempty(ctx, fr, path, src, body, lo, hi, peel):
             return True
         # 'any': last-write pattern  acc' = f(k) if cond(k) else acc
         writes = []
-        for c, p, v in posts:
-            t = close(simp(v.t))
-            if z3.eq(simp(v.t), g.inner):
-                continue
+
+        def split_self(t, cond):
+            """t == If(c, X, self) (nested): list of (cond, value) writes; None if self occurs elsewhere."""
+            t = simp(t)
+            if z3.eq(t, g.inner):
+                return []
+            if z3.is_app(t) and t.decl().kind() == z3.Z3_OP_ITE:
+                a = split_self(t.arg(1), simp(z3.And(cond, t.arg(0))))
+                b = split_self(t.arg(2), simp(z3.And(cond, z3.Not(t.arg(0)))))
+                if a is None or b is None:
+                    return None
+                return a + b
             if mentions(t, [L.state_const]):
+                return None
+            return [(cond, t)]
+        for c, p, v in posts:
+            parts = split_self(v.t, c)
+            if parts is None:
                 raise Unsupported(f"loop at {where}: update of '{g.name}' depends on its own previous value (needs an invariant)")
-            if mentions(t, others):
-                return False
-            writes.append((c, t, v))
+            for pc_, t in parts:
+                pc_ = close(pc_)
+                t = close(t)
+                if mentions(pc_, [L.state_const]) or mentions(t, [L.state_const]):
+                    raise Unsupported(f"loop at {where}: update of '{g.name}' depends on its own previous value (needs an invariant)")
+                if mentions(t, others) or mentions(pc_, others):
+                    return False
+                writes.append((pc_, t, v))
+        if not writes:
+            L.mk = lambda a, b, q=None, entry=entry: entry
+            return True
         wcond = norm(z3.Or([c for c, _, _ in writes]))
         wval = None
         ann = None
@@ -916,6 +1003,11 @@ def exec_for(ctx, fr, path, st):
     # zip_longest over a list that is appended to inside the loop needs iterator semantics: not summarised
     out = []
     names = assigned_names(st.body)
+    # loop-local temporaries (always written before they are read, not used after the loop) are not carried
+    after = loaded_after(fr.func.node if fr.func is not None else None, getattr(st, "end_lineno", st.lineno))
+    if after is not None:
+        keep = live_in_names(st.body) | after
+        names = {n for n in names if n in keep}
     for p, src in iter_source(ctx, fr, path, st.iter):
         def bind(q, el, st=st):
             return list(assign_to(ctx, fr, q, st.target, el))
